@@ -14,8 +14,8 @@ STRUCT_WEIGHTS = {
 class C02(Profile):
     prop = "C02"
     name = "C02"
-    weights = dict(STRUCT_WEIGHTS)
-    owned = ("state_", "reopen_")
+    weights = dict(STRUCT_WEIGHTS, observe=3)
+    owned = ("state_", "reopen_", "alias_view")
     reopen_introspect = True
 
     def tune_knobs(self, k, rng):
